@@ -63,6 +63,13 @@ def make_variants(rng, prog, input_rels, cname, init_rel, init_rows, bogus_rows)
     add(include_variant('inc', prog, 'ascent', rng, cname), '')
     add(include_variant('inc2', prog, 'ascent', rng, cname), '')
     add(include_variant('incpar', prog, 'ascent_par', rng, cname), '')
+    # program-level attributes together with include_source!: the attribute must still take effect (the harness calls run_timeout,
+    # which exists only if #![generate_run_timeout] survived the expansion of the include)
+    for nm, kind in (('inctmo', 'ascent'), ('inctmopar', 'ascent_par')):
+        vt = include_variant(nm, prog, kind, rng, cname, attrs=['generate_run_timeout', 'measure_rule_times'])
+        vt.timeout = True
+        vt.extra_attrs = ['generate_run_timeout', 'measure_rule_times']
+        add(vt, '')
     add(E.Variant('times', prog, 'ascent', extra_attrs=['measure_rule_times']), '#![measure_rule_times]')
     add(E.Variant('tmo', prog, 'ascent', extra_attrs=['generate_run_timeout']), '#![generate_run_timeout], run()')
     add(E.Variant('both', prog, 'ascent_par', extra_attrs=['measure_rule_times', 'generate_run_timeout']), 'both attributes, ascent_par!')
@@ -208,7 +215,8 @@ def run(ctx, only=None):
             c.variants = [v for v in c.variants if v not in own]
             split.append(c2)
     allc = cases + split
-    diffrun.run_cases(ctx, allc, on_ok=on_ok, closure=False)
+    diffrun.run_cases(ctx, allc, on_ok=on_ok, closure=False,
+                      compile_fail_violation=lambda c, vname: vname.startswith('inctmo') and not any(b in c.build_failed for b in ('base', 'tmo', 'inc', 'both')))
     ctx.cov['executions_per_packaging'] = per
     # segment-codegen: rebuild a subset with the cargo feature on
     if not only:
